@@ -25,10 +25,16 @@ class _Spy(torch.Tensor):
     """Tensor that remembers the indices assigned through ``t[idx] = value``."""
 
     writes = []
+    reads = []
 
     def __setitem__(self, idx, value):
         _Spy.writes.append(idx)
         return super().__setitem__(idx, value)
+
+    def __getitem__(self, idx):
+        if isinstance(idx, int):
+            _Spy.reads.append(idx)
+        return super().__getitem__(idx)
 
 
 def install(events, problems):
@@ -68,8 +74,16 @@ def install(events, problems):
         if state["first"]:
             state["first"] = False
             if self.step_offset > 0:
-                same = [j for j in range(self.m) if torch.equal(Pt[j], P)]
-                events.append({"name": "resume", "done": int(self.step_offset), "slot": same[0] if len(same) == 1 else -1 - len(same)})
+                reads = list(state.get("resume_reads", []))  # (before our own indexing below adds to it)
+                plain = Pt.as_subclass(torch.Tensor)
+                same = [j for j in range(self.m) if torch.equal(plain[j], P.as_subclass(torch.Tensor))]
+                if len(same) == 1:
+                    slot = same[0]
+                elif len(reads) >= 1 and len(set(reads)) == 1 and reads[0] in same:
+                    slot = reads[0]  # several slots hold identical values (fixed point): use the index run_from_checkpoint read
+                else:
+                    slot = -1 - len(same)
+                events.append({"name": "resume", "done": int(self.step_offset), "slot": slot})
         before = Pt.clone()
         _Spy.writes = []
         out = orig_step(self, molecule, step, P, Pt.as_subclass(_Spy), *a, **kw)
@@ -88,6 +102,18 @@ def install(events, problems):
         return out
 
     MDmod.XL_BOMD.one_step = one_step
+    orig_load = MDmod.Molecular_Dynamics_Basic._load_checkpoint_base
+
+    def _load(path, device=None):
+        out = orig_load(path, device=device)
+        ck = out[0]
+        if isinstance(ck.get("xl_ctx"), dict) and torch.is_tensor(ck["xl_ctx"].get("Pt")):
+            ck["xl_ctx"]["Pt"] = ck["xl_ctx"]["Pt"].as_subclass(_Spy)
+            _Spy.reads = []
+            state["resume_reads"] = _Spy.reads
+        return out
+
+    MDmod.Molecular_Dynamics_Basic._load_checkpoint_base = staticmethod(_load)
 
 
 def run(case, workdir):
